@@ -1,14 +1,363 @@
 /-
-C09 — `with` restores an object's complete radio configuration (statements in progress).
+C09 — `with` restores an object's complete radio configuration.
+
+Spec: `NrfModel/Spec/Restore.lean` (`CfgRegs`, `regsOf`, `shadowRegs`, `ShadowEq`, `InRange`,
+`RadioShape`, `PoweredDown`, `SameShadows`).  Helper lemmas: `NrfProofs/C08Core.lean`,
+`NrfProofs/C09Enter.lean`, `C09History.lean` (blocks of several objects), `C09Init.lean`, `C09Ble.lean`.
 -/
-import NrfModel.BleDev
+import NrfProofs.C09Ble
 
 namespace Nrf.Props.C09
-open Nrf
+open Nrf Nrf.Spec Rf24
 
-/-- a register write that respects the write mask logs nothing -/
-theorem C09_reservedLog_clean (name : String) (mask v : Nat) (h : v &&& mask = v) :
-    Radio.reservedLog name mask v = [] := by
-  simp [Radio.reservedLog, h]
+/-- the radio an object drives, in a world -/
+abbrev radioOf (d : Rf24) (w : World) : Radio := w.radio d.rid
+
+/-- **`__enter__` makes the register file a function of the object's shadows alone.**
+For EVERY in-range shadow state `d` and EVERY world `w` — whatever other objects left in the
+radio's registers, FIFOs, flags, whatever is on the air — in which the object's radio exists and
+its FEATURE/DYNPD registers are accessible (an nRF24L01+, or a non-plus chip in the activated
+state): `__enter__` does not raise; afterwards every configuration register equals its shadow
+(`ShadowEq`), explicitly `regsOf = shadowRegs {d with config := d.config ||| 2}`; CE is low and
+PWR_UP is set; the shadows are unchanged apart from PWR_UP in the CONFIG shadow; the violation log
+gains at most the library's documented "2-byte address" entry; the chip variant state is untouched;
+no other radio's configuration changes. -/
+theorem C09_enter (d : Rf24) (w : World) (hrid : d.rid < w.radios.length) (hr : InRange d)
+    (hvis : (radioOf d w).featureVisible = true) (hshape : RadioShape (radioOf d w)) :
+    let out := exec enter ⟨d, w⟩
+    out.1 = .ok () ∧
+    regsOf (radioOf d out.2.w) = shadowRegs { d with config := d.config ||| 2 } ∧
+    ShadowEq out.2.d (radioOf d out.2.w) ∧
+    SameShadows out.2.d { d with config := d.config ||| 2 } ∧
+    (radioOf d out.2.w).ce = false ∧ (radioOf d out.2.w).config &&& 2 = 2 ∧
+    (radioOf d out.2.w).plus = (radioOf d w).plus ∧ (radioOf d out.2.w).activated = (radioOf d w).activated ∧
+    (radioOf d out.2.w).violations = (radioOf d w).violations ++ enterLog d ∧
+    out.2.w.radios.length = w.radios.length ∧
+    ∀ j, j ≠ d.rid → (out.2.w.radio j).cfgOf = (w.radio j).cfgOf := by
+  intro out
+  obtain ⟨s', hex, hd, hrid', hwf, hfr, hlen, hce, hpl, hact, hviol, hvis', _⟩ := enter_spec ⟨d, w⟩ hrid hr hshape
+  have hout : out = (.ok (), s') := hex
+  rw [hout]
+  have hregs := hvis' hvis
+  have hc : s'.cfg = (radioOf d s'.w).cfgOf := by
+    unfold DrvState.cfg radioOf; rw [hrid']
+  rw [hc] at hregs hviol hce hpl hact
+  have h1' : regsOf (radioOf d s'.w) = shadowRegs { d with config := d.config ||| 2 } := hregs
+  refine ⟨rfl, h1', ?_, ?_, hce, ?_, hpl, hact, hviol, hlen, hfr⟩
+  · show regsOf (radioOf d s'.w) = shadowRegs s'.d
+    rw [h1', hd]
+    rfl
+  · show ({ s'.d with status := 0 } : Rf24) = _
+    rw [hd]
+  · have : (radioOf d s'.w).config = d.config ||| 2 := congrArg CfgRegs.config h1'
+    rw [this]
+    exact (by decide : ∀ c : Fin 128, (c.val ||| 2) &&& 2 = 2) ⟨d.config, hr.1⟩
+
+example : ∃ d w, d.rid < w.radios.length ∧ InRange d ∧ (radioOf d w).featureVisible = true ∧
+    RadioShape (radioOf d w) ∧ ¬ ShadowEq d (radioOf d w) :=
+  ⟨{ rid := 1, channel := 40, aa := 3 }, World.fresh 2, by decide⟩
+
+/-- **Non-plus chip with locked feature registers** (what holds when `activated = false`, the
+situation of known finding K1): `__enter__` still restores every register except DYNPD and FEATURE,
+which keep whatever they held — the writes are ignored by the chip. -/
+theorem C09_enter_locked_partial (d : Rf24) (w : World) (hrid : d.rid < w.radios.length) (hr : InRange d)
+    (hvis : (radioOf d w).featureVisible = false) (hshape : RadioShape (radioOf d w)) :
+    let out := exec enter ⟨d, w⟩
+    out.1 = .ok () ∧
+    regsOf (radioOf d out.2.w) =
+      { shadowRegs { d with config := d.config ||| 2 } with
+        dynpd := (radioOf d w).dynpd, feature := (radioOf d w).feature } ∧
+    (radioOf d out.2.w).ce = false := by
+  intro out
+  obtain ⟨s', hex, hd, hrid', hwf, hfr, hlen, hce, hpl, hact, hviol, _, hhid⟩ := enter_spec ⟨d, w⟩ hrid hr hshape
+  have hout : out = (.ok (), s') := hex
+  rw [hout]
+  have hc : s'.cfg = (radioOf d s'.w).cfgOf := by
+    unfold DrvState.cfg radioOf; rw [hrid']
+  have hregs := hhid hvis
+  rw [hc] at hregs hce
+  exact ⟨rfl, hregs, hce⟩
+
+example : ∃ d w, d.rid < w.radios.length ∧ InRange d ∧ (radioOf d w).featureVisible = false ∧
+    RadioShape (radioOf d w) :=
+  ⟨{ rid := 0, dynPl := 1 }, World.fresh 1 false, by decide⟩
+
+/-- **`__exit__`**: for every object with an in-range CONFIG shadow, in every world: no exception;
+CE low and PWR_UP = 0 afterwards; CONFIG = the shadow with PWR_UP cleared and no other register
+changes; the CONFIG shadow follows, no other shadow changes; if the shadows equalled the registers
+before, they still do; no other radio's configuration changes. -/
+theorem C09_exit (d : Rf24) (w : World) (hrid : d.rid < w.radios.length) (hc : d.config < 128) :
+    let out := exec Rf24.exit ⟨d, w⟩
+    out.1 = .ok () ∧ PoweredDown (radioOf d out.2.w) ∧
+    regsOf (radioOf d out.2.w) = { regsOf (radioOf d w) with config := d.config &&& 0x7D } ∧
+    SameShadows out.2.d { d with config := d.config &&& 0x7D } ∧
+    (ShadowEq d (radioOf d w) → ShadowEq out.2.d (radioOf d out.2.w)) ∧
+    (radioOf d out.2.w).violations = (radioOf d w).violations ∧
+    (radioOf d out.2.w).plus = (radioOf d w).plus ∧ (radioOf d out.2.w).activated = (radioOf d w).activated ∧
+    out.2.w.radios.length = w.radios.length ∧
+    ∀ j, j ≠ d.rid → (out.2.w.radio j).cfgOf = (w.radio j).cfgOf := by
+  intro out
+  obtain ⟨s', hex, hd, hrid', hwf, hfr, hlen, hcfg⟩ := exit_spec ⟨d, w⟩ hrid hc
+  have hout : out = (.ok (), s') := hex
+  rw [hout]
+  have hc' : s'.cfg = (radioOf d s'.w).cfgOf := by
+    unfold DrvState.cfg radioOf; rw [hrid']
+  have hc0 : (DrvState.mk d w).cfg = (radioOf d w).cfgOf := rfl
+  rw [hc', hc0] at hcfg
+  have hce : (radioOf d s'.w).cfgOf.ce = false := by rw [hcfg]
+  have hcf : (radioOf d s'.w).cfgOf.config = d.config &&& 0x7D := by rw [hcfg]
+  have hregs : regsOf (radioOf d s'.w).cfgOf = { regsOf (radioOf d w).cfgOf with config := d.config &&& 0x7D } := by
+    rw [hcfg]; rfl
+  refine ⟨rfl, ⟨hce, ?_⟩, hregs, ?_, ?_, ?_, ?_, ?_, hlen, hfr⟩
+  · show (radioOf d s'.w).cfgOf.config &&& 2 = 0
+    rw [hcf]; exact cfg_pwr_down hc
+  · show ({ s'.d with status := 0 } : Rf24) = _
+    rw [hd]
+  · intro heq
+    show regsOf (radioOf d s'.w).cfgOf = shadowRegs s'.d
+    have heq' : regsOf (radioOf d w).cfgOf = shadowRegs d := heq
+    rw [hregs, heq', hd]
+    rfl
+  · show (radioOf d s'.w).cfgOf.violations = _
+    rw [hcfg]; rfl
+  · show (radioOf d s'.w).cfgOf.plus = _
+    rw [hcfg]; rfl
+  · show (radioOf d s'.w).cfgOf.activated = _
+    rw [hcfg]; rfl
+
+example : ∃ (d : Rf24) (w : World), d.rid < w.radios.length ∧ d.config < 128 ∧ ¬ PoweredDown (radioOf d w) :=
+  ⟨{ rid := 0 }, { World.fresh 1 with radios := [{ config := 0x0F, ce := true }] }, by decide⟩
+
+/-- **C09_restore (the property).**  Let an object end its block with its shadows in range and
+equal to the registers of its radio (`ShadowEq d`, C03's invariant, taken as a hypothesis) and leave
+it (`__exit__`).  Let then ANYTHING happen to the world — other objects' blocks, any register
+contents, FIFOs, flags: an arbitrary world `w'` with the same number of radios in which the radio
+still has accessible feature registers and its register shape.  Re-entering the block
+(`__enter__` on the shadows `__exit__` left) does not raise and yields a register file equal to the
+one at the end of the previous block, except that PWR_UP is set; CE is low. -/
+theorem C09_restore (d : Rf24) (w w' : World) (hrid : d.rid < w.radios.length) (hr : InRange d)
+    (heq : ShadowEq d (radioOf d w))
+    (hlen : w'.radios.length = w.radios.length)
+    (hvis : (radioOf d w').featureVisible = true) (hshape : RadioShape (radioOf d w')) :
+    let left := exec Rf24.exit ⟨d, w⟩
+    let back := exec enter ⟨left.2.d, w'⟩
+    left.1 = .ok () ∧ back.1 = .ok () ∧
+    regsOf (radioOf d back.2.w) = withPwr (regsOf (radioOf d w)) ∧
+    (radioOf d back.2.w).ce = false ∧
+    SameShadows back.2.d { d with config := d.config ||| 2 } := by
+  intro left back
+  obtain ⟨s1, hex1, hd1, hrid1, _, _, _, _⟩ := exit_spec ⟨d, w⟩ hrid hr.1
+  have hl : left = (.ok (), s1) := hex1
+  have hr1 : InRange s1.d := by rw [hd1]; exact inRange_exit hr _
+  have hrid' : s1.d.rid < w'.radios.length := by rw [hrid1, hlen]; exact hrid
+  have hvis1 : (radioOf s1.d w').featureVisible = true := by unfold radioOf; rw [hrid1]; exact hvis
+  have hshape1 : RadioShape (radioOf s1.d w') := by unfold radioOf; rw [hrid1]; exact hshape
+  obtain ⟨b1, b2, _, b4, b5, _⟩ := C09_enter s1.d w' hrid' hr1 hvis1 hshape1
+  have hback : back = exec enter ⟨s1.d, w'⟩ := by show exec enter ⟨left.2.d, w'⟩ = _; rw [hl]
+  rw [hl, hback]
+  have hrr : ∀ w'', radioOf s1.d w'' = radioOf d w'' := by intro w''; unfold radioOf; rw [hrid1]
+  rw [hrr] at b2 b5
+  refine ⟨rfl, b1, ?_, b5, ?_⟩
+  · rw [b2, hd1]
+    have heq' : regsOf (radioOf d w) = shadowRegs d := heq
+    rw [heq']
+    show ({ shadowRegs d with config := (d.config &&& 0x7D) ||| 2 } : CfgRegs) = _
+    rw [cfg_pwr_cycle hr.1]
+    rfl
+  · have : SameShadows (exec enter ⟨s1.d, w'⟩).2.d { s1.d with config := s1.d.config ||| 2 } := b4
+    unfold SameShadows at this ⊢
+    rw [this, hd1]
+    show ({ d with config := (d.config &&& 0x7D) ||| 2, status := 0 } : Rf24) = _
+    rw [cfg_pwr_cycle hr.1]
+
+example : ∃ (d : Rf24) (w w' : World), d.rid < w.radios.length ∧ InRange d ∧ ShadowEq d (radioOf d w) ∧
+    w'.radios.length = w.radios.length ∧ (radioOf d w').featureVisible = true ∧ RadioShape (radioOf d w') ∧
+    regsOf (radioOf d w') ≠ regsOf (radioOf d w) :=
+  ⟨{ rid := 0, channel := 2, openPipes := 3, addrLen := 5, plLen := [1, 1, 1, 1, 1, 1], features := 0, dynPl := 0,
+     retrySetup := 3, rfSetup := 0x0E, config := 0x0A,
+     pipes0 := [0xE7, 0xE7, 0xE7, 0xE7, 0xE7], pipes1 := [0xC2, 0xC2, 0xC2, 0xC2, 0xC2],
+     pipesN := [0xC3, 0xC4, 0xC5, 0xC6], txAddress := [0xE7, 0xE7, 0xE7, 0xE7, 0xE7] },
+   { World.fresh 1 with radios := [{ config := 0x0A, rxPw := [1, 1, 1, 1, 1, 1] }] },
+   { World.fresh 1 with radios := [{ rfCh := 99, enAA := 0, rxAddr0 := [1, 2, 3, 4, 5] }] }, by decide⟩
+
+/-- **C09_history.**  For ANY number of objects sharing a world (each driving any of its radios),
+for EVERY history of `with` blocks — any interleaving, each block `__enter__`, then any behaviour
+that keeps the block contract `Body.Ok` (shadows in range and equal to the registers at block end:
+C03's invariant; the world keeps its radios), then `__exit__` — at every block:
+the register file right after `__enter__` equals the one the object had established at the end of
+its previous block with PWR_UP set (`est i = some R → entered = withPwr R`), and after `__exit__`
+CE is low and the radio powered down. -/
+theorem C09_history (n : Nat) (blocks : List (Nat × Body)) (σ : Sys)
+    (hw : WorldOk n σ.w)
+    (hobjs : ∀ i, i < σ.objs.length → (σ.objs.getD i default).rid < n ∧ InRange (σ.objs.getD i default))
+    (hblocks : ∀ ib ∈ blocks, ib.1 < σ.objs.length ∧ ib.2.Ok n) :
+    Holds blocks σ (fun _ => none) := by
+  refine holds_of_good n blocks σ _ ⟨hw, fun i hi => ⟨(hobjs i hi).1, (hobjs i hi).2, ?_⟩⟩ hblocks
+  intro R hR
+  cases hR
+
+/-- a body that keeps the contract and changes the configuration: `channel = 40` done right
+    (register and shadow) — here simply the identity, and two objects on one radio -/
+example : ∃ (n : Nat) (σ : Sys) (b : Body), WorldOk n σ.w ∧ b.Ok n ∧ σ.objs.length = 2 ∧
+    (∀ i, i < σ.objs.length → (σ.objs.getD i default).rid < n ∧ InRange (σ.objs.getD i default)) := by
+  refine ⟨1, ⟨[{ rid := 0 }, { rid := 0, channel := 40, aa := 0 }], World.fresh 1⟩, ⟨id⟩, ?_, ?_, rfl, ?_⟩
+  · refine ⟨rfl, fun j hj => ?_⟩
+    have : j = 0 := by omega
+    subst this
+    decide
+  · intro s h1 h2 h3 h4
+    exact ⟨rfl, h2, h3, h4⟩
+  · intro i hi
+    have : i = 0 ∨ i = 1 := by simp at hi; omega
+    rcases this with rfl | rfl <;> decide
+
+/-- **No leak.**  In the functional model each object's shadow state is a separate value, so a call
+on object A cannot change object B's shadows (there is nothing to prove: `exec m ⟨dA, w⟩` does not
+mention `dB`).  What matters is the frame on the *radio* side: `__enter__` and `__exit__` of an
+object change the configuration of no radio but its own, keep the number of radios, and — by
+`C09_restore` with `w'` := whatever A left — B's next `__enter__` wipes out every register A set.
+Stated for the pair enter/exit of A followed by B's `__enter__`: B's registers are B's. -/
+theorem C09_no_leak (dA dB : Rf24) (w : World) (hA : dA.rid < w.radios.length) (hB : dB.rid < w.radios.length)
+    (hrA : InRange dA) (hrB : InRange dB)
+    (hok : ∀ j, j < w.radios.length → (w.radio j).plus = true ∧ RadioShape (w.radio j)) :
+    let a1 := exec enter ⟨dA, w⟩
+    let a2 := exec Rf24.exit a1.2
+    let b1 := exec enter ⟨dB, a2.2.w⟩
+    b1.1 = .ok () ∧ regsOf (radioOf dB b1.2.w) = shadowRegs { dB with config := dB.config ||| 2 } ∧
+    ∀ j, j ≠ dA.rid → (a2.2.w.radio j).cfgOf = (w.radio j).cfgOf := by
+  intro a1 a2 b1
+  obtain ⟨hpA, hsA⟩ := hok dA.rid hA
+  have hvA : (radioOf dA w).featureVisible = true := by unfold Radio.featureVisible; rw [hpA]; rfl
+  obtain ⟨e1, e2, e3, e4, e5, e6, e7, e8, e9, e10, e11⟩ := C09_enter dA w hA hrA hvA hsA
+  obtain ⟨s1, hex1, hd1, hrid1, hwf1, _⟩ := enter_spec ⟨dA, w⟩ hA hrA hsA
+  have ha1 : a1 = (.ok (), s1) := hex1
+  have hr1 : InRange s1.d := by rw [hd1]; exact inRange_enter hrA _
+  have hs1 : s1 = ⟨s1.d, s1.w⟩ := rfl
+  have hrid1' : s1.d.rid < s1.w.radios.length := hwf1
+  obtain ⟨x1, x2, x3, x4, x5, x6, x7, x8, x9, x10⟩ := C09_exit s1.d s1.w hrid1' hr1.1
+  have ha2 : a2 = exec Rf24.exit ⟨s1.d, s1.w⟩ := by show exec Rf24.exit a1.2 = _; rw [ha1]
+  have hlen1 : s1.w.radios.length = w.radios.length := by
+    have := e10; rw [hex1] at this; exact this
+  have hlen2 : a2.2.w.radios.length = w.radios.length := by rw [ha2, x9, hlen1]
+  have hfr1 : ∀ j, j ≠ dA.rid → (s1.w.radio j).cfgOf = (w.radio j).cfgOf := by
+    have := e11; rw [hex1] at this; exact this
+  have hfr : ∀ j, j ≠ dA.rid → (a2.2.w.radio j).cfgOf = (w.radio j).cfgOf := by
+    intro j hj
+    rw [ha2, x10 j (by rw [hrid1]; exact hj)]
+    exact hfr1 j hj
+  -- B's radio after A's block: plus variant and shape are kept
+  have hBok : (radioOf dB a2.2.w).featureVisible = true ∧ RadioShape (radioOf dB a2.2.w) := by
+    by_cases hj : dB.rid = dA.rid
+    · have hp : (radioOf dB a2.2.w).plus = true := by
+        unfold radioOf; rw [hj, ha2, ← hrid1]
+        have := x7; unfold radioOf at this; rw [this]
+        have := e7; rw [hex1] at this; unfold radioOf at this; rw [hrid1, this]; exact hpA
+      refine ⟨by unfold Radio.featureVisible; rw [hp]; rfl, ?_⟩
+      have hregs : regsOf (radioOf dB a2.2.w) = shadowRegs { s1.d with config := s1.d.config &&& 0x7D } := by
+        unfold radioOf; rw [hj, ha2, ← hrid1]
+        have h3 := x3; unfold radioOf at h3; rw [h3]
+        have h2 : regsOf (s1.w.radio s1.d.rid) = shadowRegs s1.d := by
+          have := e3; rw [hex1] at this; unfold ShadowEq radioOf at this; rw [hrid1]; exact this
+        rw [h2]; rfl
+      exact radioShape_of_shadowEq hregs (inRange_exit hr1 s1.d.status)
+    · have := hfr dB.rid hj
+      obtain ⟨hp, hs⟩ := hok dB.rid hB
+      refine ⟨?_, ?_⟩
+      · rw [← featureVisible_cfgOf]; unfold radioOf; rw [this, featureVisible_cfgOf]
+        unfold Radio.featureVisible; rw [hp]; rfl
+      · rw [← radioShape_cfgOf]; unfold radioOf; rw [this, radioShape_cfgOf]; exact hs
+  obtain ⟨f1, f2, _⟩ := C09_enter dB a2.2.w (by rw [hlen2]; exact hB) hrB hBok.1 hBok.2
+  exact ⟨f1, f2, hfr⟩
+
+example : ∃ (dA dB : Rf24) (w : World), dA.rid < w.radios.length ∧ dB.rid < w.radios.length ∧ InRange dA ∧
+    InRange dB ∧ dA ≠ dB ∧ dA.rid = dB.rid :=
+  ⟨{ rid := 0 }, { rid := 0, channel := 40, aa := 0, dynPl := 0, features := 0 }, World.fresh 1, by decide⟩
+
+/-! ### FakeBLE objects and the shadow ranges the constructors establish -/
+
+/-- `FakeBLE.__enter__` is `RF24.__enter__` on the embedded driver object, `FakeBLE.__exit__` is
+`RF24.__exit__` after forgetting the advertised name / TX-power flag (not radio configuration): so
+`C09_enter`, `C09_exit`, `C09_restore`, `C09_history` apply verbatim to the embedded shadows `b.rf`. -/
+theorem C09_ble_enter_exit (s : BleState) :
+    execB BleDev.enter s =
+      ((exec enter ⟨s.b.rf, s.w⟩).1,
+       { b := { s.b with rf := (exec enter ⟨s.b.rf, s.w⟩).2.d }, w := (exec enter ⟨s.b.rf, s.w⟩).2.w }) ∧
+    execB BleDev.exit s =
+      ((exec Rf24.exit ⟨s.b.rf, s.w⟩).1,
+       { b := { s.b with showDbm := false, name := none, rf := (exec Rf24.exit ⟨s.b.rf, s.w⟩).2.d },
+         w := (exec Rf24.exit ⟨s.b.rf, s.w⟩).2.w }) :=
+  ⟨ble_enter s, ble_exit s⟩
+
+/-- `C09_restore` for a FakeBLE object -/
+theorem C09_restore_ble (b : BleDev) (w w' : World) (hrid : b.rf.rid < w.radios.length) (hr : InRange b.rf)
+    (heq : ShadowEq b.rf (radioOf b.rf w))
+    (hlen : w'.radios.length = w.radios.length)
+    (hvis : (radioOf b.rf w').featureVisible = true) (hshape : RadioShape (radioOf b.rf w')) :
+    let left := execB BleDev.exit ⟨b, w⟩
+    let back := execB BleDev.enter ⟨left.2.b, w'⟩
+    left.1 = .ok () ∧ back.1 = .ok () ∧
+    regsOf (radioOf b.rf back.2.w) = withPwr (regsOf (radioOf b.rf w)) ∧
+    (radioOf b.rf back.2.w).ce = false ∧
+    SameShadows back.2.b.rf { b.rf with config := b.rf.config ||| 2 } := by
+  intro left back
+  have hl : left = ((exec Rf24.exit ⟨b.rf, w⟩).1,
+      { b := { b with showDbm := false, name := none, rf := (exec Rf24.exit ⟨b.rf, w⟩).2.d },
+        w := (exec Rf24.exit ⟨b.rf, w⟩).2.w }) := ble_exit ⟨b, w⟩
+  have hb : back = ((exec enter ⟨(exec Rf24.exit ⟨b.rf, w⟩).2.d, w'⟩).1,
+      { b := { left.2.b with rf := (exec enter ⟨(exec Rf24.exit ⟨b.rf, w⟩).2.d, w'⟩).2.d },
+        w := (exec enter ⟨(exec Rf24.exit ⟨b.rf, w⟩).2.d, w'⟩).2.w }) := by
+    show execB BleDev.enter ⟨left.2.b, w'⟩ = _
+    rw [ble_enter, hl]
+  obtain ⟨c1, c2, c3, c4, c5⟩ := C09_restore b.rf w w' hrid hr heq hlen hvis hshape
+  rw [hb, hl]
+  exact ⟨c1, c2, c3, c4, c5⟩
+
+example : ∃ (b : BleDev) (w w' : World), b.rf.rid < w.radios.length ∧ InRange b.rf ∧ ShadowEq b.rf (radioOf b.rf w) ∧
+    w'.radios.length = w.radios.length ∧ (radioOf b.rf w').featureVisible = true ∧ RadioShape (radioOf b.rf w') ∧
+    regsOf (radioOf b.rf w') ≠ regsOf (radioOf b.rf w) :=
+  ⟨{ rf := { rid := 0, channel := 2, openPipes := 3, addrLen := 5, plLen := [1, 1, 1, 1, 1, 1], features := 0,
+             dynPl := 0, aa := 0, retrySetup := 3, rfSetup := 0x0E, config := 0x0A,
+             pipes0 := [0xE7, 0xE7, 0xE7, 0xE7, 0xE7], pipes1 := [0xC2, 0xC2, 0xC2, 0xC2, 0xC2],
+             pipesN := [0xC3, 0xC4, 0xC5, 0xC6], txAddress := [0xE7, 0xE7, 0xE7, 0xE7, 0xE7] } },
+   { World.fresh 1 with radios := [{ config := 0x0A, enAA := 0, rxPw := [1, 1, 1, 1, 1, 1] }] },
+   { World.fresh 1 with radios := [{ rfCh := 99, rxAddr0 := [1, 2, 3, 4, 5] }] }, by decide⟩
+
+/-- **`RF24.__init__` establishes in-range shadows** (the hypothesis `InRange` of `C09_enter` /
+`C09_restore` for the first block), for a new object on ANY radio of ANY world in which that radio
+answers and holds bytes in RX_ADDR_P2..5 — whatever other objects left in it, plus or non-plus:
+no exception; the shadows are in range; no reading address for pipe 0; TX role; every pipe closed. -/
+theorem C09_init_inrange (rid : Nat) (w : World) (hrid : rid < w.radios.length)
+    (hb : ∀ x ∈ (w.radio rid).rxAddrN, x < 256) :
+    let out := exec init ⟨{ rid := rid }, w⟩
+    out.1 = .ok () ∧ InRange out.2.d ∧ out.2.d.rid = rid ∧ out.2.d.pipe0ReadAddr = none ∧
+    out.2.d.config &&& 1 = 0 ∧ out.2.d.openPipes = 0 ∧ out.2.w.radios.length = w.radios.length := by
+  intro out
+  obtain ⟨s', hex, hre, hok⟩ := init_spec ⟨{ rid := rid }, w⟩ hrid rfl hb
+  have : out = (.ok (), s') := hex
+  rw [this]
+  refine ⟨rfl, hok.range, (hre.frame hrid).1, hok.user, ?_, hok.op, hre.length⟩
+  show s'.d.config &&& 1 = 0
+  rw [hok.config]; decide
+
+example : ∃ (rid : Nat) (w : World), rid < w.radios.length ∧ (∀ x ∈ (w.radio rid).rxAddrN, x < 256) ∧
+    (w.radio rid).rfCh = 99 :=
+  ⟨1, { World.fresh 2 false with radios := [{}, { plus := false, rfCh := 99, feature := 0 }] }, by decide, by decide, by decide⟩
+
+/-- **`FakeBLE.__init__` establishes in-range shadows**, likewise; pipe 0 is then the user's (the
+BLE access address) and open. -/
+theorem C09_ble_init_inrange (rid : Nat) (w : World) (hrid : rid < w.radios.length)
+    (hb : ∀ x ∈ (w.radio rid).rxAddrN, x < 256) (hs : RadioShape (w.radio rid)) :
+    let out := execB BleDev.init ⟨{ rf := { rid := rid } }, w⟩
+    out.1 = .ok () ∧ InRange out.2.b.rf ∧ out.2.b.rf.rid = rid ∧ out.2.w.radios.length = w.radios.length ∧
+    out.2.b.rf.pipe0ReadAddr = some BLE_ADDR ∧ out.2.b.rf.openPipes &&& 1 ≠ 0 ∧ out.2.b.rf.config &&& 1 = 0 := by
+  intro out
+  obtain ⟨s', hex, h1, h2, h3, h4, h5, h6⟩ := ble_init_spec { rf := { rid := rid } } w hrid rfl hb hs
+  have : out = (.ok (), s') := hex
+  rw [this]
+  exact ⟨rfl, h1, h2, h3, h4, h5, h6⟩
+
+example : ∃ (rid : Nat) (w : World), rid < w.radios.length ∧ (∀ x ∈ (w.radio rid).rxAddrN, x < 256) ∧
+    RadioShape (w.radio rid) :=
+  ⟨0, World.fresh 1, by decide, by decide, by decide⟩
 
 end Nrf.Props.C09
